@@ -9,6 +9,7 @@ import (
 	"math/rand"
 	"os"
 	"path/filepath"
+	"runtime/debug"
 	"sort"
 	"strings"
 	"sync"
@@ -320,6 +321,10 @@ func oneLine(s string, max int) string {
 	return s
 }
 
+// workerPanic is set by the current context: a panic inside a monitor goroutine is a defect of the
+// harness itself and must surface as exit 3 (HARNESS-ERROR), never as a crash or a silent pass.
+var workerPanic = func(msg string) { fmt.Println("HARNESS-ERROR " + oneLine(msg, 1500)); os.Exit(3) }
+
 // ParallelFor runs f(worker, i) for i in [0,n) on the given number of workers.
 func ParallelFor(n, workers int, f func(worker, i int)) {
 	if workers < 1 {
@@ -343,7 +348,14 @@ func ParallelFor(n, workers int, f func(worker, i int)) {
 				if i >= n {
 					return
 				}
-				f(w, i)
+				func() {
+					defer func() {
+						if p := recover(); p != nil {
+							workerPanic(fmt.Sprintf("monitor goroutine panicked on item %d: %v\n%s", i, p, debug.Stack()))
+						}
+					}()
+					f(w, i)
+				}()
 			}
 		}(w)
 	}
